@@ -185,7 +185,7 @@ class Gauleg(Entry):
                     for a, b, kind in [(0.0, 1.0, "plain"), (3.5, -2.25, "rev"), (-7.0, -3.0, "neg"), (1e-5, 3e-5, "tiny"),
                                        (2e-250, 7e-250, "tiny"), (-4e200, 9e200, "huge"), (1e12, -1e12, "rev")]:
                         cs.append({"a": hx(a), "b": hx(b), "n": n, "mom": 0, "family": "interval:" + kind})
-            for a, b, kind in intervals(r, ctx.n(45, 300) if round == 0 else 40):
+            for a, b, kind in intervals(r, ctx.n(45, 220) if round == 0 else 40):
                 n = r.choice([r.randrange(1, 12), r.randrange(1, 61), r.randrange(1, 61 if q else 201)])
                 cs.append({"a": hx(a), "b": hx(b), "n": n, "mom": 0, "family": "interval:" + kind})
         elif self.mode == "moments":
@@ -197,8 +197,8 @@ class Gauleg(Entry):
                     ns = [n for n in ns if n % 2 == 0 or n == 29]
                     k = (len(ns) + 1) // 2
                     ns = [ns[i + j * k] for i in range(k) for j in range(2) if i + j * k < len(ns)]
-                else:   # thorough: all n <= 40, then samples up to 64 (128 moments)
-                    ns = [n for n in ns if n <= 40 or n in (48, 56, 64)]
+                else:   # thorough: all n <= 32, then samples up to 64 (128 moments)
+                    ns = [n for n in ns if n <= 32 or n in (40, 48, 64)]
                 for n in ns:
                     cs.append({"a": hx(-1.0), "b": hx(1.0), "n": n, "mom": 2 * n, "family": "moments 13..%d" % nmax})
         else:
@@ -298,7 +298,7 @@ class Poly(Entry):
         ns = list(range(1, 31)) if round == 0 else [r.randrange(1, 31) for _ in range(10)]
         if round == 0 and ctx.quick():
             ns = [n for n in ns if n <= 10 or n % 2 == 0 or n == 29]
-        per = ctx.n(2, 5)
+        per = ctx.n(2, 4)
         for n in ns:
             for j in range(per):
                 deg = 2 * n - 1 if j % 2 == 0 else r.randrange(0, 2 * n)
@@ -423,7 +423,7 @@ class Func(Entry):
         r = ctx.rng
         cs = []
         names = sorted(_funcs())
-        for a, b, kind in mild_intervals(r, ctx.n(55, 350) if round == 0 else 40):
+        for a, b, kind in mild_intervals(r, ctx.n(55, 250) if round == 0 else 40):
             n = r.choice([r.randrange(1, 10), r.randrange(1, 41), r.randrange(1, 61 if ctx.quick() else 201),
                           r.choice([7, 8, 9, 127, 128, 129, 130, 136, 137] if not ctx.quick() else [7, 8, 9, 15, 16, 17])])
             cs.append({"x1": hx(a), "x2": hx(b), "n": n, "fn": r.choice(names),
@@ -477,7 +477,7 @@ class Data(Entry):
     def cases(self, ctx, round=0):
         r = ctx.rng
         cs = []
-        for _ in range(ctx.n(48, 300) if round == 0 else 30):
+        for _ in range(ctx.n(48, 200) if round == 0 else 30):
             npt = r.choice([2, 3, r.randrange(2, 12), r.randrange(2, 60)])
             spacing = r.choice(["even", "uneven", "clustered", "negative"])
             x0 = r.uniform(-10, 10)
@@ -550,11 +550,13 @@ class Func2(Entry):
         r = ctx.rng
         cs = []
         names = sorted(_funcs2())
-        nmax = 12 if ctx.quick() else 30
+        nmax = 12 if ctx.quick() else 16
         shapes = []
         if round == 0:
             shapes += [(1, 1), (1, 3), (4, 1), (3, 4), (4, 3), (2, 2), (5, 5), (7, 2), (2, 9), (8, 16)]
-        for _ in range(ctx.n(30, 180) if round == 0 else 30):
+            if not ctx.quick():
+                shapes += [(30, 30), (24, 31), (1, 40)]
+        for _ in range(ctx.n(30, 100) if round == 0 else 30):
             shapes.append((r.randrange(1, nmax + 1), r.randrange(1, nmax + 1)))
         for nx, ny in shapes:
             (a, b, k1), (c_, d, k2) = mild_intervals(r, 2)
